@@ -21,7 +21,7 @@ import numpy as np
 from harness import buildlib as B
 from harness.common import Run
 
-CONE = ["Base.v", "IR.v", "Show.v", "Build.v", "Sem.v", "Plan.v", "Named.v", "Validate.v", "BuildFacts.v", "Store.v", "StoreFacts.v", "DfsFacts.v", "CompilePres.v", "ScopeFacts.v", "EmitFacts.v"]
+CONE = ["Base.v", "IR.v", "Show.v", "Build.v", "Sem.v", "Plan.v", "Named.v", "Validate.v", "BuildFacts.v", "Store.v", "StoreFacts.v", "StoreFacts2.v", "DfsFacts.v", "CompilePres.v", "ScopeFacts.v", "EmitFacts.v"]
 PROPS = "props/C12.v"
 
 
